@@ -128,6 +128,14 @@ def pskSecret (P : Prim B) (inputs : List (PskInput B)) : Option B :=
   if inputs.length ≥ 65536 then none
   else some (pskFoldAux P inputs.length inputs 0 (P.zeros P.nh))
 
+/-- The epoch an existing member (or the committer) enters with a commit, as the group state machine
+drives `from_key_schedule`: the previous epoch's init secret, the commit secret (the all-zero string of
+length `Nh` when the commit carries no update path, RFC 9420 §8), the NEW group context and the PSK chain
+over the commit's PSK proposals in the order of the commit (`none` = `TooManyPskIds`). -/
+def epochOfCommit (P : Prim B) (initPrev : B) (commitSecret : Option B) (ctxNew : B)
+    (psks : List (PskInput B)) : Option (EpochOut B) :=
+  (pskSecret P psks).map (fromKeySchedule P initPrev (commitSecret.getD (P.zeros P.nh)) ctxNew)
+
 /-- `ConfirmationTag::create` -/
 def confirmationTag (P : Prim B) (confirmationKey confirmedHash : B) : B :=
   P.mac confirmationKey confirmedHash
